@@ -144,7 +144,7 @@ def _r16_1a(res, P, cfgname):
                 res.fail("R16.1a", cfgname, key,
                          "%s: finiteness of operand %d (%s) is not asserted on every return path (arithmetic on infinities must panic, not return a number)" % (f['p'], k, f['inputs'][k - 1]),
                          span_loc(f['sp']))
-    res.floor("R16.1a", cfgname, n, 700, "float arithmetic (entry point, operand) pairs")
+    res.floor("R16.1a", cfgname, n, 640, "float arithmetic (entry point, operand) pairs")
 
 
 LIMITED = {
@@ -335,16 +335,37 @@ def _r16_1d(res, P, cfgname):
             S = sym.Sym(f)
             cfg = mir.cfg_of(f['mir'])
             ok = False
-            for a, b, fact in S.edge_facts():
-                if not cfg.is_panic_block(b):
+            heads = {h for (_t, h) in cfg.back_edges()}
+            other_helpers = ("panic_operate_with_inf", "panic_unlimited_precision", "assert_finite", "assert_limited_precision")
+            for i, bb in enumerate(f['mir']['bbs']):
+                t = bb['t']
+                if t['k'] != 'switch' or i not in cfg.reachable():
                     continue
-                txt = sym.term_str(fact[1], 400)
-                if ("sign" in txt or "is_zero" in txt or "significand" in txt or "Lt" in txt or "Le" in txt) and "arg2" in txt and "is_infinite" not in txt:
-                    # the panic edge must precede the series loop
-                    loops = cfg.back_edges()
-                    heads = {h for (_t, h) in loops}
-                    if all(cfg.dominates(a, h) for h in heads) and heads:
-                        ok = True
+                panics = [s_ for s_ in cfg.succ[i] if cfg.is_panic_block(s_)]
+                if not panics:
+                    continue
+                # the diverging side must be a documented panic of its own (not the finiteness /
+                # precision refusals, not a debug assertion)
+                good_panic = False
+                for pb in panics:
+                    for x in cfg.reach_from(pb):
+                        tt = f['mir']['bbs'][x]['t']
+                        if tt['k'] == 'call':
+                            cp = mir.callee_path(tt) or ''
+                            fr = mir.callee(tt)
+                            macs = mir.span_macros(tt.get('sp', ''))
+                            if fr and fr.get('never') and not cp.endswith(other_helpers) and not any(m.startswith('debug_assert') for m in macs):
+                                good_panic = True
+                if not good_panic:
+                    continue
+                start = []
+                mir.walk_places(t['d'], lambda p: start.append(p['l']))
+                locs, calls = mir.backward_slice(f['mir'], start)
+                depends_on_x = 2 in locs
+                tests = [mir.callee_path(f['mir']['bbs'][c]['t']) or '' for c in calls]
+                is_test = any(x.endswith(("::sign", "::is_zero", "::le", "::lt", "::cmp", "::partial_cmp", "::is_positive", "::is_negative")) for x in tests)
+                if depends_on_x and is_test and heads and all(cfg.dominates(i, h) for h in heads):
+                    ok = True
             key = "ln_internal: domain guard (x > 0 resp. x > -1) before the series loop"
             if ok:
                 res.ok("R16.1d", cfgname, key)
